@@ -115,6 +115,7 @@ fn computes_of(ctx: &AnchorContext) -> serde_json::Value {
 pub(super) fn trace_split(
     ctx: &AnchorContext,
     before: &[super::pq::ast::SqlTransform],
+    select_columns: &[rq::CId],
     output: &[rq::CId],
     preceding: Option<&[super::pq::ast::SqlTransform]>,
     atomic: &[super::pq::ast::SqlTransform],
@@ -125,6 +126,7 @@ pub(super) fn trace_split(
                 "event": "split",
                 "pipeline": before,
                 "output": output,
+                "select_columns": select_columns,
                 "instances": instances_of(ctx, before),
                 "computes": computes_of(ctx),
                 "preceding": preceding,
@@ -151,6 +153,19 @@ pub(crate) fn trace_event(event: serde_json::Value) {
     SPLIT_TRACE.with(|t| {
         if let Some(trace) = t.borrow_mut().as_mut() {
             trace.push(event);
+        }
+    });
+}
+
+/// The pipeline `extract_atomic` returned (after the optional limiting SELECT).
+pub(crate) fn trace_extracted(ctx: &AnchorContext, atomic: &[super::pq::ast::SqlTransform]) {
+    SPLIT_TRACE.with(|t| {
+        if let Some(trace) = t.borrow_mut().as_mut() {
+            trace.push(serde_json::json!({
+                "event": "extracted",
+                "atomic": atomic,
+                "instances": instances_of(ctx, atomic),
+            }));
         }
     });
 }
